@@ -31,7 +31,6 @@ structure Ext where
   mac : Str → Str → Str        -- HMAC-SHA256 (key, message)
   sha : Str → Str              -- SHA-256
   nowNs : Int                  -- `time.Now()` in ns since the Unix epoch (one read per call)
-  reqHost : Str                -- `requestutil.GetRequestHost(req)`
   splitHostPortStd : Str → Option (Str × Str)   -- `net.SplitHostPort` (host, port) or error
 
 /-- `http.Cookie` as far as the translated functions read it -/
@@ -39,6 +38,25 @@ structure Cookie where
   Name : Str
   Value : Str
   deriving DecidableEq
+
+/-- the request scope (`middlewareapi.RequestScope`) as far as the translated functions read it -/
+structure Scope where
+  ReverseProxy : Bool
+  deriving DecidableEq
+
+/-- `*http.Request` as far as the translated functions read it -/
+structure Req where
+  header : Str → Str           -- `req.Header.Get(name)`
+  host : Str                   -- `req.Host`
+  urlScheme : Str              -- `req.URL.Scheme`
+  requestURI : Str             -- `req.URL.RequestURI()`
+  scope : Option Scope         -- `middlewareapi.GetRequestScope(req)` (nil when no scope middleware ran)
+
+/-- reading a field through a pointer: nil is a panic -/
+def derefScope (s : Option Scope) : M Scope :=
+  match s with
+  | some x => pure x
+  | none => throw "invalid memory address or nil pointer dereference"
 
 /-- `*url.URL` as far as the translated functions read it (`Hostname()`, `Port()`) -/
 structure URL where
